@@ -14,7 +14,7 @@ from ..dag import T, walk, show, deep_inline, simplify
 from ..model import FunctionInfo, AnalysisError, dotted
 from ..report import Ctx
 from ..tensor import Typer, MASKS, kwarg_t, const_int
-from ..util import norm, fn_body_nodes, walk_local, kwarg
+from ..util import cmp_views, norm, fn_body_nodes, walk_local, kwarg
 from ..pat import Snips
 from .common import arg_permutation_rule, names_in, calls_named, converged_from_counter
 
@@ -389,8 +389,12 @@ def stop_rule_vec(ctx: Ctx, typer: Typer, term: T, fi: FunctionInfo, kw: Dict[st
             ok = bool(isc or eq) and any(x.op == "call" and x.args[0].op == "attr" and x.args[0].args[1] == "all" for x in walk(test))
             ctx.check(ok, "BEL-5", callee, brk[0], f"{who}: stops when the policy is stable", "", "policy iteration does not stop on policy stability")
     cv = kw.get("converged")
-    ok = cv is not None and cv.op == "compare" and cv.args[0] == ("<",) and any(x.op == "attr" and x.args[1] == "max_iterations" for x in walk(cv.args[1][1])) \
-        and any(x.op == "elem" for x in walk(cv.args[1][0]))
+    ok = False
+    if cv is not None and cv.op == "compare" and len(cv.args[0]) == 1 and cv.args[0][0] in ("<", ">", "<=", ">="):
+        sides = list(cv.args[1])
+        has_cap = [any(x.op == "attr" and x.args[1] == "max_iterations" for x in walk(t_)) for t_ in sides]
+        has_cnt = [any(x.op == "elem" for x in walk(t_)) for t_ in sides]
+        ok = (has_cnt[0] and has_cap[1]) or (has_cnt[1] and has_cap[0])      # the exact inequality is decided by converged_rules
     ctx.check(ok, "BEL-5", fi, fi.node, f"{who}: converged = iterations < max_iterations - 1", "", f"converged is `{show(cv, 60) if cv is not None else None}`, not derived from the iteration counter against the cap")
 
 
@@ -538,7 +542,7 @@ def vi_dict(ctx: Ctx):
         e = res[0][1] if res else {}
         rv = e.get("residual") or anyres[0].targets[0].id
         t = brk[0].test
-        ok = isinstance(t, ast.Compare) and isinstance(t.ops[0], ast.Lt) and ast.unparse(t.left) == rv and ast.unparse(t.comparators[0]) == "max_residual"
+        ok = (rv, "<", "max_residual") in cmp_views(t)
         ctx.check(ok, "DICT-4", f, brk[0], f"{who}: stops when residual < max_residual", "", f"stop test is `{norm(t)}`")
         zero = [n for n in fn_body_nodes(f) if isinstance(n, ast.Assign) and ast.unparse(n.targets[0]) == rv and isinstance(n.value, ast.Constant) and n.value.value == 0]
         inloop = [n for n in fn_body_nodes(f) if isinstance(n, ast.For) and isinstance(n.iter, ast.Call) and ast.unparse(n.iter.func) == "range"]
